@@ -114,6 +114,13 @@ func rawUp(label, to string, fp *failPlan) func(json.RawMessage) (json.RawMessag
 			// what a failing upcaster returns next to its error is up to it: nothing, or its input back
 			// under some type name (here: the declared target, or a name the chain has already seen)
 			err := fmt.Errorf("verif: injected upcast failure in %s", label)
+			switch vk.Hash64(label, "kind") % 4 {
+			case 1:
+				// the step's own lookup timed out / was given up (the replay's context is live)
+				err = fmt.Errorf("verif: lookup for %s: %w", label, context.DeadlineExceeded)
+			case 2:
+				err = fmt.Errorf("verif: lookup for %s: %w", label, context.Canceled)
+			}
 			switch vk.Hash64(label) % 3 {
 			case 1:
 				return d, to, err
